@@ -26,7 +26,7 @@ func names(ss []codecx.Shape) []string {
 
 func main() {
 	run := evid.New("C08", "model_checking")
-	run.Rule("case = a packet history over the decoder's shape alphabet (payloads produced by the real encoder for every frame kind at a small limit and at 65000 bytes, malformed variants: empty/1..8 bytes of 0x00 and 0xFF, truncated by one byte, header only, first bytes inverted; x sequence step {next, same, skip} x timestamp {same, new} x marker). (a) all sequences to depth d; (b) lassos prefix(<=1) + cycle(1..2 large shapes) repeated until 2x cap bytes were fed; (c) two-phase lassos; (d) boundary exits: for every accumulating lasso (prefix + one large shape repeated) every repetition count k with k x size within [-3,+2] packets of the maximum frame size, followed by every large shape and every valid completing (marker) shape. states = distinct abstract decoder states (all slice lengths, integers and booleans of the decoder struct, by reflection); transitions = Decode calls; every trace runs on the implementation itself. non-trivial = history in which the decoder returned a frame or retained > 0 bytes")
+	run.Rule("case = a packet history over the decoder's shape alphabet (payloads produced by the real encoder for every frame kind at a small limit and at 65000 bytes, malformed variants: empty/1..8 bytes of 0x00 and 0xFF, truncated by one byte, header only, first bytes inverted; x sequence step {next, same, skip} x timestamp {same, new} x marker). (a) all sequences to depth d; (b) lassos prefix(<=1) + cycle(1..2 large shapes) repeated until 2x cap bytes were fed; (c) two-phase lassos; (d) boundary exits: for every accumulating lasso (prefix + one large shape repeated) every repetition count k with k x size within [-3,+2] packets of the maximum frame size, followed by every large shape and every valid completing (marker) shape; (e) the packet classifiers in front of the H264 / H265 decoders (format.H264.PTSEqualsDTS, format.H265.PTSEqualsDTS): every alphabet payload up to 4096 bytes and every byte string up to length 6 (quick) / 7 (thorough) over the 9 byte values their parsers branch on - the call returns, does not panic, does not modify the payload, answers the same twice. states = distinct abstract decoder states (all slice lengths, integers and booleans of the decoder struct, by reflection); transitions = Decode calls; every trace runs on the implementation itself. non-trivial = history in which the decoder returned a frame or retained > 0 bytes")
 	run.Assume("retained memory is measured structurally: capacities of all byte slices reachable from the decoder struct (reflection), not process heap")
 	run.Assume("caps are reached with 65000-byte payloads (the decoders do not look at packet size)")
 	run.Assume("KLV documents no maximum: 2 MiB is used as a notional bound, so only growth past it is reported (known finding)")
@@ -72,6 +72,8 @@ func main() {
 		}
 		run.Finish()
 	}
+
+	classifiers(run, run.Thorough())
 
 	alphaInfo := map[string]any{}
 	secs := map[string]float64{}
